@@ -612,6 +612,21 @@ example : (Opd.map { top := { name := 0, src := .shared 9 (some { tag := 9, ops 
     = .map { top := { name := 0, src := .own { tag := 9, ops := [(.Add, .fn (.ret .self))] } } } := by decide
 
 
+/-- an object with `@next` behaves the same in a `for` loop and through the public iterator path —
+same calls, same values, and the *same error*: what `@next` throws reaches the script unchanged in
+both (thrown value / kind preserved; /repo 08c98b7) -/
+theorem for_next_same_as_to_list (m : MapD) (tn : Name) (mv : MV)
+    (hn : m.metaGet .Next = some (tn, mv)) :
+    forLoop (.map m) = toList (.map m) := by
+  simp [forLoop, toList, hn]
+
+/-- in particular a value thrown in `@next` is the error of the `for` loop -/
+theorem for_next_error_unchanged (m : MapD) (tn : Name)
+    (hn : m.metaGet .Next = some (tn, .fn .throw)) (hb : m.metaGet .NextBack = none) :
+    forLoop (.map m) = ⟨[⟨tn, .mk .Next, m.av, []⟩], .err .thrown⟩ := by
+  simp [forLoop, hn, hb, nextLoop, invoke_fn, Beh.run, Beh.runAt, CallRes.pass]
+
+
 /-- `@next_back` (used by `iterator.reversed`) is looked at only when `@next` is implemented; the
 reversed iteration then calls `@next_back` alone until it returns `null`; without `@next_back` an
 object with `@next` is not reversible -/
